@@ -906,7 +906,10 @@ impl Format for ast::Expr {
                     let operand_needs_parens = match &x.value {
                         ast::Expr::LitInt { value, format } => (*value < 0 && format.signed) || op.value == token![!],
                         ast::Expr::LitFloat { value } => value.is_sign_negative() && !value.is_nan(),
-                        ast::Expr::Var(_) => op.value == token![!],
+                        ast::Expr::Var(_) | ast::Expr::Call(_) | ast::Expr::EnumConst { .. } | ast::Expr::LabelProperty { .. }
+                            => op.value == token![!],
+                        // (`---x` and `!--x` do not lex as an operator followed by a pre-decrement)
+                        ast::Expr::XcrementOp { order: ast::XcrementOpOrder::Pre, .. } => op.value != token![~],
                         // (a negated number is printed like a negative literal, see below)
                         ast::Expr::UnOp(inner_op, inner) => inner_op.value == token![unop -] && matches!(
                             &inner.value, ast::Expr::LitInt { .. } | ast::Expr::LitFloat { .. },
